@@ -1,5 +1,5 @@
 SPECIFICATION Spec
-CONSTANTS L = 2  Variant = "reverse_ties"  NObj = 4  Family = "small"
+CONSTANTS L = 2  IsoTest = "full"  Variant = "reverse_ties"  NObj = 4  Family = "tiesq"
 INVARIANT TypeOK
 INVARIANT PainterRule
 INVARIANT PrefixRule
